@@ -23,3 +23,11 @@ NATIVE = {
         ],
     ),
 }
+NATIVE['n_c14_mutations'] = dict(
+    crate='cairo-lang-sierra-to-casm',
+    host='crates/cairo-lang-sierra-to-casm/src/compiler.rs',
+    harness='native/cairo-lang-sierra-to-casm/n_c14_mutations.rs',
+    props={'C14'},
+    bound='all single structured mutations (see unit) of 5 small valid programs in quick, 13 in thorough',
+    functions=[('crates/cairo-lang-sierra-to-casm/src/compiler.rs', None, 'compile')],
+)
